@@ -232,7 +232,9 @@ func (n *RecNode) Process(ctx context.Context, e *eventlogger.Event) (*eventlogg
 	case Replace:
 		out = &eventlogger.Event{Type: ent.EvType, CreatedAt: ent.Created, Formatted: map[string][]byte{}, Payload: &Tok{S: ent.Prov + ">" + n.Obj}}
 	case Drop:
+		n.scribble(e, ent)
 	case Fail:
+		n.scribble(e, ent)
 		ne := &NodeErr{Obj: n.Obj, Prov: ent.Prov, Seq: ent.Call}
 		switch rt.Mix(n.behSeed, 77) % 4 {
 		case 0:
@@ -248,6 +250,15 @@ func (n *RecNode) Process(ctx context.Context, e *eventlogger.Event) (*eventlogg
 	}
 	n.log.done(ent, out, err)
 	return out, err
+}
+
+// scribble: one node object in three writes to the event it is about to drop or to fail on (the stock
+// JSONFormatterFilter stores its format before it applies the predicate); what a node did to the copy of its
+// own pipeline is nobody else's business.
+func (n *RecNode) scribble(e *eventlogger.Event, ent *Entry) {
+	if e != nil && rt.Mix(n.behSeed, 55)%3 == 0 {
+		e.FormattedAs("scribble-"+n.Obj, []byte(ent.Prov))
+	}
 }
 
 func (n *RecNode) Reopen() error {
